@@ -58,6 +58,12 @@ type tok struct {
 	k   tokKind
 	s   string
 	num float64
+	// optional: a numeric literal in a spelling that neither the statement nor
+	// docs/usage/math.md ("Base 10 123.456, Binary 0b1101, Hex 0x1BC") gives:
+	// upper-case 0X/0B prefix, a leading or trailing dot (.5, 5.), an unsigned
+	// exponent (1e3). A formula with such a literal may be rejected; if it
+	// compiles, the literal has its usual value.
+	optional bool
 }
 
 var refFuncs = map[string]func(float64) float64{
@@ -135,34 +141,43 @@ func classifyWord(w string) tok {
 		// S2: decimal, 0x and 0b literals. Anything else starting with a digit
 		// (017, 1_0, 2x) is outside the statement.
 		if len(w) > 2 && w[0] == '0' && (w[1] == 'x' || w[1] == 'X') {
-			if v, err := strconv.ParseUint(w[2:], 16, 62); err == nil && !strings.Contains(w, "_") {
-				return tok{k: tNum, s: w, num: float64(v)}
+			if v, ok := refDigits(w[2:], 16); ok {
+				return tok{k: tNum, s: w, num: v, optional: w[1] == 'X'}
 			}
 			return tok{k: tWeird, s: w}
 		}
 		if len(w) > 2 && w[0] == '0' && (w[1] == 'b' || w[1] == 'B') {
-			if v, err := strconv.ParseUint(w[2:], 2, 62); err == nil && !strings.Contains(w, "_") {
-				return tok{k: tNum, s: w, num: float64(v)}
+			if v, ok := refDigits(w[2:], 2); ok {
+				return tok{k: tNum, s: w, num: v, optional: w[1] == 'B'}
 			}
 			return tok{k: tWeird, s: w}
 		}
+		// digits [. digits] with an optional unsigned exponent e/E digits
+		mant, exp := w, ""
+		if i := strings.IndexAny(w, "eE"); i >= 0 {
+			mant, exp = w[:i], w[i+1:]
+			if exp == "" || !allDigits(exp) {
+				return tok{k: tWeird, s: w}
+			}
+		}
 		plain := true
 		dots := 0
-		for i := 0; i < len(w); i++ {
-			if w[i] == '.' {
+		for i := 0; i < len(mant); i++ {
+			if mant[i] == '.' {
 				dots++
-			} else if w[i] < '0' || w[i] > '9' {
+			} else if mant[i] < '0' || mant[i] > '9' {
 				plain = false
 			}
 		}
-		if !plain || dots > 1 || w == "." || (len(w) > 1 && w[0] == '0' && w[1] != '.') {
+		if !plain || dots > 1 || mant == "." || mant == "" || (len(mant) > 1 && mant[0] == '0' && mant[1] != '.') {
 			return tok{k: tWeird, s: w}
 		}
 		v, err := strconv.ParseFloat(w, 64)
 		if err != nil {
 			return tok{k: tWeird, s: w}
 		}
-		return tok{k: tNum, s: w, num: v}
+		opt := exp != "" || mant[0] == '.' || mant[len(mant)-1] == '.'
+		return tok{k: tNum, s: w, num: v, optional: opt}
 	}
 	if _, ok := refFuncs[w]; ok {
 		return tok{k: tFunc, s: w}
@@ -177,6 +192,55 @@ func classifyWord(w string) tok {
 		}
 	}
 	return tok{k: tVar, s: w}
+}
+
+// refDigits is the value of a digit string in base 2 or 16 (S2 "0x/0b
+// literals"), for values below 2^62 (exact in int64 and, up to 2^53, in float64).
+func refDigits(d string, base uint64) (float64, bool) {
+	if d == "" {
+		return 0, false
+	}
+	var v uint64
+	for i := 0; i < len(d); i++ {
+		c := d[i]
+		var x uint64
+		switch {
+		case c >= '0' && c <= '9':
+			x = uint64(c - '0')
+		case c >= 'a' && c <= 'f':
+			x = uint64(c-'a') + 10
+		case c >= 'A' && c <= 'F':
+			x = uint64(c-'A') + 10
+		default:
+			return 0, false
+		}
+		if x >= base {
+			return 0, false
+		}
+		v = v*base + x
+		if v >= 1<<62 {
+			return 0, false
+		}
+	}
+	return float64(v), true
+}
+
+func allDigits(s string) bool {
+	for i := 0; i < len(s); i++ {
+		if s[i] < '0' || s[i] > '9' {
+			return false
+		}
+	}
+	return s != ""
+}
+
+func hasOptional(toks []tok) bool {
+	for _, t := range toks {
+		if t.optional {
+			return true
+		}
+	}
+	return false
 }
 
 // ---------------------------------------------------------------- parse tree
